@@ -8,6 +8,15 @@ ALL = ['C%02d' % i for i in range(1, 21)]
 
 # id -> (technique, level text, level note, design ref)
 CHECKS = {
+    'C09': (
+        'metamorphic testing: rearranged / re-stored schemas must expose the same globals and give the same probe results',
+        'Hypothesis-driven docgen schemas rendered as named global components (forward references depend on order) with two '
+        'imported namespaces x {2 permutations, reversal, 2-3 way split into includes, spelled locations (./, x/../, absolute, file://, '
+        'percent-encoded), double inclusion under two spellings, import order, rebuild, copy, pickle} x valid and typed-fault probes; '
+        'plus every corpus schema that builds (both XSD versions) x byte-slice permutation of its global components / rebuild / copy / '
+        'pickle with the XML files of its directory as probes. Compared: sorted global component signatures, error lists and typed data.',
+        'trusted: the untransformed schema as reference; redefine/override/include/import children keep their place',
+        'DESIGN.md section 3 C09'),
     'C06': (
         'differential testing lazy vs fully loaded over Hypothesis-generated and templated documents',
         'docgen documents (valid, or damaged by typed faults incl. duplicate key/ID and dangling keyref/IDREF in later chunks) and a '
